@@ -362,3 +362,27 @@ func (g *Gen) ClockBy(d int64) {
 	g.now += d
 	g.do(fmt.Sprintf("clock %d", g.now))
 }
+
+// Burst issues 2..6 concurrent sub-ops: pushes, removals, block removals, sweeps and observers.
+func (g *Gen) Burst() {
+	r := g.R
+	n := r.Range(2, 6)
+	var parts []string
+	for i := 0; i < n; i++ {
+		switch r.Pick(8, 3, 2, 1, 2, 2) {
+		case 0:
+			parts = append(parts, fmt.Sprintf("push t%d", g.pickID()))
+		case 1:
+			parts = append(parts, "rm"+tnames(g.pickMembers(r.Range(1, 2))))
+		case 2:
+			parts = append(parts, "rmblock"+tnames(g.blockTxs()))
+		case 3:
+			parts = append(parts, "sweep")
+		case 4:
+			parts = append(parts, "size")
+		case 5:
+			parts = append(parts, fmt.Sprintf("txnum %d", r.Intn(len(g.H.Reg.Snds)+1)))
+		}
+	}
+	g.do("burst " + strings.Join(parts, " | "))
+}
